@@ -94,6 +94,56 @@ fn variants_visit(ctx: &StateCtx, acc: &mut Acc, base_hash: u64) {
     }
 }
 
+/// The same single-feature rule for positions REACHED by a move: the hash the game carries after push(m) must differ
+/// from the hash of every state-feature variant (side, each right, en-passant file) of the successor loaded from text.
+/// (A hash that keeps a stale state key collides with exactly such a variant.)
+fn reached_variants(ctx: &StateCtx, acc: &mut Acc) {
+    let Ok(g) = load(ctx.pos) else { return };
+    for m in ctx.pos.legal() {
+        let mut h = g.clone();
+        let Some(em) = find_move(&mut h, &m.uci()) else { continue };
+        if guarded(|| h.push(em)).is_err() {
+            continue;
+        }
+        let reached = h.hash();
+        let succ = ctx.pos.apply(&m).normalised();
+        let mut variants: Vec<(String, String)> = vec![];
+        for bit in 0..4 {
+            let mut q = succ;
+            q.rights ^= 1 << bit;
+            variants.push((format!("castling right {}", ["K", "Q", "k", "q"][bit]), q.fen6(false)));
+        }
+        for f in 0..9u8 {
+            if f == succ.engine_ep_file() {
+                continue;
+            }
+            let epf = if f == 8 { "-".to_string() } else { format!("{}{}", (b'a' + f) as char, if succ.white { '6' } else { '3' }) };
+            variants.push((format!("en-passant file -> {}", epf), format!("{} {} {} {} 0 1", succ.placement_field(), if succ.white { 'w' } else { 'b' }, succ.rights_field(), epf)));
+        }
+        {
+            let mut q = succ;
+            q.white = !succ.white;
+            q.ep = None;
+            if succ.ep.is_none() {
+                variants.push(("the side to move".into(), q.fen6(false)));
+            }
+        }
+        for (what, fen) in variants {
+            acc.evaluations += 1;
+            if let Ok(Some(vh)) = hash_of_fen(&fen) {
+                acc.transitions += 1;
+                if vh == reached {
+                    acc.violation(
+                        format!("reached-variant|{}|{}|{}", ctx.pos.fen4(false), m.uci(), what),
+                        format!("after {} from {:?} the game's hash {:X} equals the hash of the position that differs from it in {} ({:?})", m.uci(), ctx.pos.fen4(false), reached, what, fen),
+                        json::obj(vec![("kind", json::s("c05-reached")), ("fen", json::s(ctx.pos.fen6(false))), ("move", json::s(m.uci())), ("variant", json::s(fen.clone()))]),
+                    );
+                }
+            }
+        }
+    }
+}
+
 pub fn run(tier: &str, seed: i64) -> Outcome {
     let off = seed.unsigned_abs();
     let spaces = core_spaces(tier, seed, false);
@@ -124,6 +174,7 @@ pub fn run(tier: &str, seed: i64) -> Outcome {
         if take {
             acc.count("base states with all single-feature variants");
             variants_visit(ctx, acc, h);
+            reached_variants(ctx, acc);
             if acc.samples.len() < 2 {
                 acc.sample(json::obj(vec![("base", json::s(ctx.pos.fen6(false))), ("hash", json::s(format!("{:X}", h))), ("variants", json::s("side, 4 rights, 9 ep values pairwise, 62 squares x 10 other non-king contents"))]));
             }
@@ -178,7 +229,7 @@ pub fn run(tier: &str, seed: i64) -> Outcome {
     for b in bad {
         acc.violation(format!("keytable|{}", b), format!("key file: {}", b), json::obj(vec![("kind", json::s("keytable"))]));
     }
-    let mut out = Outcome::new(acc, reports, "(a) every state of every listed space enters one global table engine-hash -> model key; no hash may map to two keys. (b) for a fixed-stride subset of base states, every single-feature variant (side; each right; all 9 en-passant values pairwise; each non-king square to each of the 10 other non-king contents) is loaded from text with Game::new and must hash differently. (c) pairwise distinctness inside the key file per feature");
+    let mut out = Outcome::new(acc, reports, "(a) every state of every listed space enters one global table engine-hash -> model key; no hash may map to two keys. (b) for a fixed-stride subset of base states, every single-feature variant (side; each right; all 9 en-passant values pairwise; each non-king square to each of the 10 other non-king contents) is loaded from text with Game::new and must hash differently; the hash carried after every move out of a base state must differ from every state-feature variant of the successor. (c) pairwise distinctness inside the key file per feature");
     out.traces_validated = out.acc.transitions;
     out.assumptions = vec![
         "collision freedom is established over the positions visited in this run, not over all of chess".into(),
@@ -208,6 +259,12 @@ pub fn replay(j: &J) -> Result<Acc, String> {
             let h = hash_of_fen(base)?.ok_or("base refused")?;
             let ctx = StateCtx { pos: &pos, root: None, path: &[], space: "replay", index: 0 };
             variants_visit(&ctx, &mut acc, h);
+        }
+        Some("c05-reached") => {
+            let base = j.get("fen").and_then(|x| x.as_str()).ok_or("fen")?;
+            let pos = parse_fen_strict(base)?.pos.normalised();
+            let ctx = StateCtx { pos: &pos, root: None, path: &[], space: "replay", index: 0 };
+            reached_variants(&ctx, &mut acc);
         }
         Some("c05-collision") => {
             let a = j.get("a").and_then(|x| x.as_str()).ok_or("a")?;
